@@ -36,7 +36,7 @@ def cases(draw, big=False):
         hmax = draw(st.sampled_from([3, 8, 20, 1000]))
     noise = draw(st.sampled_from([1e-6, 1e-3, 0.02, 0.1, 0.3, 0.45]))
     tol = draw(st.one_of(st.floats(0.001, 0.5, allow_nan=False), st.sampled_from([0.5, 0.05, 0.25])))
-    degenerate = draw(st.sampled_from(["no", "no", "no", "coplanar", "collinear", "samepeak"]))
+    degenerate = draw(st.sampled_from(["no", "no", "no", "coplanar", "collinear", "samepeak", "dyadic"]))
     seed = draw(st.integers(0, 2 ** 31 - 1))
     nlabel = draw(st.integers(1, 4))
     return dict(family=fam, cell=[float(x) for x in cell], U=U, left=left, perturb=perturb, n=n, hmax=hmax,
@@ -61,6 +61,18 @@ def build(case):
     elif case["degenerate"] == "samepeak" and n:
         h[:] = h[0]
     d = rng.uniform(-1, 1, (n, 3)) * case["noise"]
+    if case["degenerate"] == "dyadic":
+        # everything exactly representable: cell edges powers of two along the axes, fractional indices that are
+        # multiples of 1/8 - UBI.g, its rounding and the squared error are computed without any rounding error, so a
+        # peak can sit bit for bit on the tolerance (tol 0.5 / 0.25 / 0.125 with a half / quarter / eighth offset)
+        edges = 2.0 ** rng.randint(0, 4, 3)
+        P = np.eye(3)[rng.permutation(3)] * rng.choice([-1.0, 1.0], 3)[:, None]
+        UB = P @ np.diag(1.0 / edges)
+        h = rng.randint(-min(hmax, 8), min(hmax, 8) + 1, (n, 3)).astype(float)
+        d = rng.choice([0.0, 0.0, 0.0, 0.5, -0.5, 0.25, -0.25, 0.125, 0.375], (n, 3)) * (rng.random_sample((n, 3)) < 0.4)
+        gv = np.ascontiguousarray((UB @ (h + d).T).T)
+        labels = rng.randint(0, case["nlabel"] + 1, n).astype(np.int32)
+        return np.ascontiguousarray(np.linalg.inv(UB)), gv, labels
     gv = np.ascontiguousarray((UB @ (h + d).T).T)
     ubi = np.linalg.inv(UB)
     if case["perturb"]:
@@ -69,13 +81,16 @@ def build(case):
     return np.ascontiguousarray(ubi), gv, labels
 
 
-def reference(ubi, gv, tol):
-    """errors, integer hkl, sure-in / ambiguous masks"""
+def reference(ubi, gv, tol, exact=False):
+    """errors, integer hkl, sure-in / ambiguous masks; exact: all arithmetic is exact (dyadic inputs), the boundary is
+    decided by the strict comparison alone"""
     hh = gv @ ubi.T                       # (n,3)
     hi = np.rint(hh)
     e = ((hh - hi) ** 2).sum(axis=1)
     hm = np.abs(hh).max(axis=1) if len(hh) else np.zeros(0)
     u = 4e-13 * (1 + hm) * (np.sqrt(e) + 1e-13 * (1 + hm))
+    if exact:
+        u = u * 0.0
     t2 = tol * tol
     sure = e + u < t2
     amb = (~sure) & (e - u < t2)
@@ -136,7 +151,12 @@ def check(case, rec=None):
     ubi, gv, labels = build(case)
     n = len(gv)
     tol = case["tol"]
-    e, hi, sure, amb, half = reference(ubi, gv, tol)
+    dyadic = case["degenerate"] == "dyadic"
+    if dyadic:
+        tol = case["tol"] = [0.5, 0.25, 0.125, 0.5][case["seed"] % 4]
+    e, hi, sure, amb, half = reference(ubi, gv, tol, exact=dyadic)
+    if dyadic:
+        amb = amb & False                 # half-integer indices round either way with the same error
     nin, namb = int(sure.sum()), int(amb.sum())
     fails = []
     where = "n=%d tol=%.6g hmax=%d noise=%g %s%s" % (n, tol, case["hmax"], case["noise"], case["degenerate"],
